@@ -540,6 +540,36 @@ func (a *bnAn) lo0(v ssa.Value, at *ssa.BasicBlock, depth int, stack map[ssa.Val
 					return 0
 				}
 			}
+			// idx - c under HasSuffix/HasPrefix(x[:idx], P) with len(P) >= c:
+			// the tested value has length idx
+			if c, ok := bnConst(v.Y); ok {
+				found := false
+				guards(at, func(cond ssa.Value, truth bool, where *ssa.BasicBlock) {
+					cl, ok := cond.(*ssa.Call)
+					if !ok || !truth || len(cl.Call.Args) != 2 {
+						return
+					}
+					nm := bnCallee(cl)
+					if !(strings.HasSuffix(nm, ".HasPrefix") || strings.HasSuffix(nm, ".HasSuffix")) {
+						return
+					}
+					sl, ok := cl.Call.Args[0].(*ssa.Slice)
+					if !ok || sl.High == nil || !a.sameVal(sl.High, v.X) {
+						return
+					}
+					if sl.Low != nil {
+						if z, isC := bnConst(sl.Low); !isC || z != 0 {
+							return
+						}
+					}
+					if p, ok := cl.Call.Args[1].(*ssa.Const); ok && p.Value != nil && p.Value.Kind() == constant.String && int64(len(constant.StringVal(p.Value))) >= c {
+						found = true
+					}
+				})
+				if found {
+					return 0
+				}
+			}
 			if c, ok := bnConst(v.Y); ok {
 				x := a.lo(v.X, at, depth+1, stack)
 				if x >= bnTop/2 {
@@ -1400,6 +1430,17 @@ func bnIdiom(c *Ctx, a *flAgg, an *bnAn, f *ssa.Function, sl *ssa.Slice, ord map
 				if S := bnLenOf(x); S != nil && an.sameVal(S, X) && (o == token.GTR || o == token.GEQ) {
 					if P2, e2, ok := lenOfOtherPlus(y); ok && an.sameVal(P2, P) && (e2 > extra || (e2 == extra && true)) {
 						proved, why = true, "dominated by an explicit length comparison"
+					}
+					// len(X) > len(P) + c + len(Q): a further length only adds
+					if bo, isB := y.(*ssa.BinOp); isB && bo.Op == token.ADD {
+						for _, pr := range [][2]ssa.Value{{bo.X, bo.Y}, {bo.Y, bo.X}} {
+							if bnLenOf(pr[1]) == nil {
+								continue
+							}
+							if P2, e2, ok := lenOfOtherPlus(pr[0]); ok && an.sameVal(P2, P) && e2 >= extra {
+								proved, why = true, "dominated by an explicit length comparison"
+							}
+						}
 					}
 				}
 			}
